@@ -27,7 +27,11 @@ META = {
             'parameter unchanged, refill = block of a cipher created with nonce = stream id and seeked to the counter (a '
             'cipher that cannot produce the block is a failure; counters >= 2^58 cannot be reached by any cipher type and '
             'are checked by the model only, counted in the evidence), stream32_eq/stream64_eq = expected truth value for '
-            'the word that differs; the model replays the whole sequence inside coqc and must reproduce every get value, '
+            'the word that differs; every case ends with two more comparisons, against a state differing ONLY in d word 0 '
+            'and ONLY in d word 1 (one bit: lowest / highest / random); on EVERY compared pair the derived whole-state '
+            'PartialEq is evaluated too (a == b, b == a, a != b, b != a): == must be true exactly when all twelve key / d '
+            'words are equal (C14 uses == as an observation, on equal states only), a direct failure otherwise '
+            '(evidence: whole_state_eq_evaluated); the model replays the whole sequence inside coqc and must reproduce every get value, '
             'block and predicate value; host debug/release 600, forced SSE2 release 200, portable debug and release 200',
     "assumptions": ["little-endian host", "parameter index is 0 or 1"],
 }
